@@ -170,7 +170,7 @@ def oracle_state(tr: Trace, agent, Z64, where: str):
         tr.problems.append(f"{where}: sigma_inv has non-finite entries")
         return
     asym = float(np.abs(Sn - Sn.T).max())
-    if asym > 1e-5 * scale:
+    if asym > TOL * scale:                   # same norm-wise float32 allowance as the matrix comparison
         tr.problems.append(f"{where}: sigma_inv not symmetric (max |S - S'| = {asym:.3g}, scale {scale:.3g})")
     ev = np.linalg.eigvalsh((Sn + Sn.T) / 2)
     noise = 1e-5 * scale                     # float32 resolution of the entries
@@ -289,7 +289,7 @@ def run_impl(case, fault=None) -> Trace:
                     smax = float(np.abs(S_before).max())
                     for k in range(g64.shape[0]):
                         # |g'(S-B)g| <= max|S-B| * (sum |g_i|)^2: norm-wise, like the matrix comparison
-                        slack = 0.1 * TOL * smax * float(np.abs(g64[k]).sum()) ** 2
+                        slack = TOL * smax * float(np.abs(g64[k]).sum()) ** 2
                         tr.add("bandit bonus " + " ".join(frac(float(x)) for x in g[k].tolist()),
                                ("bonus", float(b_impl[k]), where, slack))
                     tr.expect.append(("argmax", dict(algo=algo, mu=mu.tolist(), gamma=float(case["gamma"]),
